@@ -34,3 +34,14 @@ package calico
 //@             ippool.VXLANMode == encap.Always || ippool.VXLANMode == encap.CrossSubnet,
 //@             ippool.IPIPMode == encap.Always || ippool.IPIPMode == encap.CrossSubnet)
 //@   assigns nothing
+
+//@ -- C28 (input side): the cached global BGPConfiguration that processIPPools consults IS the latest one seen -
+//@ -- including "none" after the resource is deleted, so that an absent setting falls back to the default
+//@ func (*client).updateBGPConfigCache
+//@   property C28
+//@   option safety off
+//@   option mathint
+//@   option stable (*client).globalBGPConfig, *string
+//@   requires c != nil
+//@   ensures resName == globalConfigName ==> c.globalBGPConfig == v3res
+//@   ensures resName != globalConfigName ==> c.globalBGPConfig == old(c.globalBGPConfig)
